@@ -179,3 +179,141 @@ Proof.
     rewrite skipn_all2 by (rewrite to_be_length; lia); cbn [app]; rewrite firstn_all2 by (rewrite to_be_length; lia); apply from_be_to_be;
     [change (256 ^ Z.of_nat 4) with (2 ^ 32)|change (256 ^ Z.of_nat 8) with (2 ^ 64)]; lia.
 Qed.
+
+(* ---------- the header walk of SZ_getMetadata ---------- *)
+Definition hflag_sweep : bool :=
+  forallb (fun c => forallb (fun l => forallb (fun s => forallb (fun o =>
+    negb (Z.land o 81 =? 0) ||
+    (let f := c + 16 * l + 64 * s + o in ((f mod 2 =? c) && ((f / 16) mod 2 =? l) && ((f / 64) mod 2 =? s))))
+    (map Z.of_nat (seq 0 256))) [0; 1]) [0; 1]) [0; 1].
+Lemma hflag_sweep_ok : hflag_sweep = true. Proof. vm_compute. reflexivity. Qed.
+
+Lemma hflag_fields c l s o : In c [0; 1] -> In l [0; 1] -> In s [0; 1] -> 0 <= o < 256 -> Z.land o 81 = 0 ->
+  let f := c + 16 * l + 64 * s + o in f mod 2 = c /\ (f / 16) mod 2 = l /\ (f / 64) mod 2 = s.
+Proof.
+  intros Hc Hl Hs Ho Hz. pose proof hflag_sweep_ok as S. unfold hflag_sweep in S.
+  rewrite forallb_forall in S. specialize (S _ Hc). rewrite forallb_forall in S. specialize (S _ Hl).
+  rewrite forallb_forall in S. specialize (S _ Hs). rewrite forallb_forall in S.
+  assert (Io : In o (map Z.of_nat (seq 0 256))).
+  { apply in_map_iff. exists (Z.to_nat o). split; [lia|]. apply in_seq. lia. }
+  specialize (S _ Io). rewrite Hz in S. cbn [Z.eqb negb orb] in S. cbv zeta in S.
+  rewrite !andb_true_iff in S. destruct S as [[S1 S2] S3]. apply Z.eqb_eq in S1, S2, S3. cbv zeta. auto.
+Qed.
+
+Definition header_ok (h:header) : bool :=
+  pblock_ok (h_params h) && ((h_const h =? 0) || (h_const h =? 1)) && ((h_lossless h =? 0) || (h_lossless h =? 1)) &&
+  ((h_size8 h =? 0) || (h_size8 h =? 1)) && (0 <=? h_other h) && (h_other h <? 256) && (Z.land (h_other h) 81 =? 0) &&
+  (0 <=? h_length h) && (h_length h <? (if h_size8 h =? 1 then 2 ^ 64 else 2 ^ 32)).
+
+(* the twenty bytes before min/max survive the truncation of the block to its field and anything that follows *)
+Lemma walk_shape f sd pt b5 B sol z IV MM (m:nat) T :
+  length sd = 2%nat -> length pt = 2%nat -> length B = 8%nat -> length IV = 4%nat -> (20 <= m)%nat ->
+  let v := decode_params (firstn m ([f] ++ sd ++ pt ++ [b5] ++ B ++ [sol; z] ++ IV ++ MM) ++ T) in
+  v_optQuantMode v = (f / 64) mod 2 /\ v_dataEnd v = (f / 32) mod 2 /\ v_szMode v = (f / 4) mod 4 /\ v_gzipMode v = gz_level (f mod 4) /\
+  v_sampleDistance v = to_signed 2 (from_be sd) /\ v_predThr v = to_signed 2 (from_be pt) /\
+  v_ebMode v = (b5 / 16) mod 16 /\ v_dataType v = b5 mod 16 /\ v_b6 v = from_be (firstn 4 B) /\ v_b10 v = from_be (skipn 4 B) /\
+  v_sol v = sol /\ v_intervals v = from_be IV.
+Proof.
+  intros H1 H2 H3 H4 Hm.
+  destruct sd as [|s1 [|s0 [|]]]; try discriminate.
+  destruct pt as [|t1 [|t0 [|]]]; try discriminate.
+  destruct B as [|b0 [|b1 [|b2 [|b3 [|b4 [|b5' [|b6 [|b7 [|]]]]]]]]]; try discriminate.
+  destruct IV as [|i0 [|i1 [|i2 [|i3 [|]]]]]; try discriminate.
+  do 20 (destruct m as [|m]; [lia|]).
+  cbn [app firstn]. unfold decode_params, sub, byte_at. cbn [app skipn firstn nth]. cbv zeta. repeat split; reflexivity.
+Qed.
+
+Lemma skipn_app_exact {A} (a b:list A) n : length a = n -> skipn n (a ++ b) = b.
+Proof. intro H. subst. rewrite skipn_app, skipn_all, Nat.sub_diag. reflexivity. Qed.
+Lemma firstn_app_exact {A} (a b:list A) n : length a = n -> firstn n (a ++ b) = a.
+Proof. intro H. subst. rewrite firstn_app, firstn_all, Nat.sub_diag, firstn_O, app_nil_r. reflexivity. Qed.
+
+(* SZ_getMetadata on the prefix the serialisers write (whatever follows it): constant / lossless flags, size type,
+   element count, and every field of the parameter block it reports *)
+Theorem get_metadata_header h rest : header_ok h = true ->
+  let m := get_metadata (header_bytes h ++ rest) in
+  let p := h_params h in
+  m_const m = h_const h /\ m_lossless m = h_lossless h /\ m_sizeType m = (if h_size8 h =? 1 then 8 else 4) /\ m_length m = h_length h /\
+  v_dataType (m_view m) = dataType p /\ v_ebMode (m_view m) = ebMode p /\ v_szMode (m_view m) = pb_szMode p /\
+  v_b6 (m_view m) = v_b6 (view_of p) /\ v_b10 (m_view m) = v_b10 (view_of p) /\ v_intervals (m_view m) = v_intervals (view_of p) /\
+  v_optQuantMode (m_view m) = pb_optQuantMode p /\ v_sampleDistance (m_view m) = pb_sampleDistance p /\ v_predThr (m_view m) = predThr p /\
+  v_sol (m_view m) = solID p.
+Proof.
+  intro H. unfold header_ok in H.
+  repeat match goal with H: (_ && _) = true |- _ => apply andb_true_iff in H; destruct H as [? ?] end.
+  match goal with H: pblock_ok _ = true |- _ => rename H into Hp end.
+  assert (Hc : In (h_const h) [0; 1]) by (apply in_list01; assumption).
+  assert (Hl : In (h_lossless h) [0; 1]) by (apply in_list01; assumption).
+  assert (Hs : In (h_size8 h) [0; 1]) by (apply in_list01; assumption).
+  repeat match goal with
+  | H: (_ <=? _) = true |- _ => apply Z.leb_le in H
+  | H: (_ <? _) = true |- _ => apply Z.ltb_lt in H
+  | H: (Z.land _ _ =? 0) = true |- _ => apply Z.eqb_eq in H
+  end.
+  pose proof (hflag_fields _ _ _ (h_other h) Hc Hl Hs ltac:(lia) ltac:(assumption)) as (F1 & F2 & F3).
+  pose proof (decode_encode_params _ Hp) as DE.
+  pose proof (flag_fields _ Hp) as (G1 & G2 & G3 & G4).
+  assert (Hm: modes_ok (ebMode (h_params h)) = true).
+  { unfold pblock_ok in Hp. repeat match goal with H: (_ && _) = true |- _ => apply andb_true_iff in H; destruct H as [? ?] end. assumption. }
+  pose proof Hp as Hp'. split_ok Hp'.
+  pose proof (b5_fields (ebMode (h_params h)) (dataType (h_params h)) Hm ltac:(lia)) as (B1 & B2).
+  (* shape of the encoded block *)
+  assert (LB: length (force (bound_bytes (h_params h))) = 8%nat).
+  { unfold force. rewrite map_length. unfold bound_bytes, be4, zeros4, unset4. apply modes_cases in Hm.
+    repeat (destruct Hm as [Hm|Hm]; [rewrite Hm; cbn [Z.eqb Pos.eqb orb]; rewrite ?app_length, ?some_length, ?to_be_length; reflexivity|]).
+    rewrite Hm; cbn [Z.eqb Pos.eqb orb]; rewrite ?app_length, ?some_length, ?to_be_length; reflexivity. }
+  set (E := force (encode_params (h_params h))) in *.
+  assert (EE : exists MM, E = [flag1 (h_params h)] ++ to_be 2 (pb_sampleDistance (h_params h) mod 65536) ++ to_be 2 (predThr (h_params h) mod 65536)
+      ++ [((ebMode (h_params h) * 16) mod 256 + dataType (h_params h) mod 16) mod 256] ++ force (bound_bytes (h_params h))
+      ++ [solID (h_params h) mod 256; 0] ++ to_be 4 ((if pb_optQuantMode (h_params h) =? 1 then maxQ (h_params h) else quantI (h_params h)) mod 2 ^ 32) ++ MM).
+  { subst E. unfold encode_params. rewrite !force_app, !force_some. eexists. reflexivity. }
+  destruct EE as [MM EE].
+  assert (LE : length E = Z.to_nat (if dataType (h_params h) =? 0 then 28 else 36)).
+  { pose proof (params_length (h_params h) Hm) as PL. subst E. unfold force. rewrite map_length.
+    unfold SrcConsts.src_MetaDataByteLength, SrcConsts.src_MetaDataByteLength_double in PL. destruct (dataType (h_params h) =? 0); lia. }
+  (* the walk *)
+  unfold get_metadata, header_bytes. cbv zeta. fold E. cbn [m_view m_const m_lossless m_sizeType m_length].
+  set (P := firstn (Z.to_nat (mdbl (dataType (h_params h)))) E).
+  set (opt := if is_int (dataType (h_params h)) && (h_const h =? 0) && (h_lossless h =? 0) then [h_exactByteSize h] else []).
+  set (st := if h_size8 h =? 1 then 8%nat else 4%nat).
+  cbn [app]. unfold byte_at. cbn [nth]. rewrite !F1, !F2, !F3.
+  cbn [skipn].
+  assert (Mge : (20 <= Z.to_nat (mdbl (dataType (h_params h))))%nat).
+  { unfold mdbl, SrcConsts.src_MetaDataByteLength_double, SrcConsts.src_MetaDataByteLength. destruct (dataType (h_params h) =? 1); lia. }
+  pose proof (walk_shape (flag1 (h_params h)) (to_be 2 (pb_sampleDistance (h_params h) mod 65536)) (to_be 2 (predThr (h_params h) mod 65536))
+                (((ebMode (h_params h) * 16) mod 256 + dataType (h_params h) mod 16) mod 256) (force (bound_bytes (h_params h))) (solID (h_params h) mod 256) 0
+                (to_be 4 ((if pb_optQuantMode (h_params h) =? 1 then maxQ (h_params h) else quantI (h_params h)) mod 2 ^ 32)) MM
+                (Z.to_nat (mdbl (dataType (h_params h)))) ((opt ++ to_be st (h_length h)) ++ rest)
+                (to_be_length 2 _) (to_be_length 2 _) LB (to_be_length 4 _) Mge) as W.
+  rewrite <- EE in W. fold P in W. cbv zeta in W.
+  replace ((P ++ opt ++ to_be st (h_length h)) ++ rest) with (P ++ (opt ++ to_be st (h_length h)) ++ rest) by (rewrite <- !app_assoc; reflexivity).
+  destruct W as (W1 & W2 & W3 & W4 & W5 & W6 & W7 & W8 & W9 & W10 & W11 & W12).
+  rewrite W8, B2.
+  (* the DE-derived fields *)
+  assert (V : forall q, q = view_of (h_params h) -> True) by auto.
+  split; [reflexivity|]. split; [reflexivity|]. split; [destruct Hs as [Hs|[Hs|[]]]; rewrite <- Hs; reflexivity|].
+  split.
+  { (* the element count *)
+    assert (LP : length P = Z.to_nat (mdbl (dataType (h_params h)))).
+    { subst P. rewrite firstn_length, LE. unfold mdbl, SrcConsts.src_MetaDataByteLength_double, SrcConsts.src_MetaDataByteLength.
+      destruct (dataType (h_params h) =? 1) eqn:E1; destruct (dataType (h_params h) =? 0) eqn:E0; lia. }
+    unfold sub.
+    assert (Lopt : length opt = if is_int (dataType (h_params h)) && (h_const h =? 0) && (h_lossless h =? 0) then 1%nat else 0%nat).
+    { subst opt. destruct (is_int _ && _ && _); reflexivity. }
+    replace (Z.to_nat (4 + mdbl (dataType (h_params h)) + (if is_int (dataType (h_params h)) && (h_const h =? 0) && (h_lossless h =? 0) then 1 else 0)))
+      with (4 + (length P + length opt))%nat.
+    2:{ rewrite LP, Lopt. unfold mdbl, SrcConsts.src_MetaDataByteLength_double, SrcConsts.src_MetaDataByteLength.
+        destruct (dataType (h_params h) =? 1); destruct (is_int _ && _ && _); lia. }
+    cbn [plus skipn].
+    replace (P ++ (opt ++ to_be st (h_length h)) ++ rest) with ((P ++ opt) ++ (to_be st (h_length h) ++ rest)) by (rewrite <- !app_assoc; reflexivity).
+    rewrite skipn_app_exact by (rewrite app_length; reflexivity).
+    replace (Z.to_nat (if h_size8 h =? 1 then 8 else 4)) with st by (subst st; destruct (h_size8 h =? 1); reflexivity).
+    rewrite firstn_app_exact by apply to_be_length.
+    apply from_be_to_be. subst st. destruct (h_size8 h =? 1); [change (256 ^ Z.of_nat 8) with (2 ^ 64)|change (256 ^ Z.of_nat 4) with (2 ^ 32)]; lia. }
+  rewrite W7. rewrite B1. rewrite W3. rewrite G3. rewrite W1. rewrite G1. rewrite W11, W5, W6, W9, W10, W12.
+  rewrite !signed2 by lia. rewrite (Z.mod_small (solID (h_params h))) by lia.
+  (* b6, b10, intervals: as in decode_encode_params *)
+  rewrite <- DE. subst E. unfold encode_params. rewrite !force_app, !force_some.
+  rewrite (decode_shape _ _ _ _ _ _ _ _ _ (to_be_length 2 _) (to_be_length 2 _) LB (to_be_length 4 _)). cbn [v_b6 v_b10 v_intervals].
+  repeat split; reflexivity.
+Qed.
